@@ -332,6 +332,84 @@ theorem contains_imp_intersects (s t : Shape) (hs : Valid s) (ht : Valid t)
             simp only [bind, Except.bind, pure, Except.pure, Except.ok.injEq] at h
             rw [if_neg hsw, orFirst_ok hvs hvt, h]; rfl
 
+/-- **what the intersection test computes**, for two shapes that are not points: some edge pair properly
+    crosses, or the first vertex of one lies in the other (C01's membership) -/
+theorem intersects_iff_spec {s t : Shape} {vs vt : Pt} (hs : s.firstVertex = .ok vs)
+    (ht : t.firstVertex = .ok vt) (hsp : ∀ p, s ≠ .point p) (htp : ∀ p, t ≠ .point p) :
+    intersectsShape s t = .ok true ↔
+      anyCross s.flatEdges t.flatEdges ∨ s.containsCoord vt = true ∨ t.containsCoord vs = true := by
+  have e0 : intersectsShape s t = relInter s t := by
+    cases s with
+    | point q => exact absurd rfl (hsp q)
+    | _ => rfl
+  have e1 : relInter s t =
+      if doEdgesIntersect s.flatEdges t.flatEdges then .ok true else orFirst s t := by
+    cases t with
+    | point q => exact absurd rfl (htp q)
+    | _ => rfl
+  rw [e0, e1, orFirst_ok hs ht, ← sweep_eq_anyCross]
+  by_cases h : doEdgesIntersect s.flatEdges t.flatEdges = true
+  · simp [h]
+  · simp [h]
+
+/-- a point intersects a polygon, box or linestring iff it is contained or lies exactly on an edge -/
+theorem intersects_point_iff (s : Shape) (q : Pt) (hsp : ∀ p, s ≠ .point p) :
+    intersectsShape s (.point q) = .ok (s.containsCoord q || s.flatEdges.any (onEdge q)) ∧
+      intersectsShape (.point q) s = .ok (s.containsCoord q || s.flatEdges.any (onEdge q)) := by
+  cases s with
+  | point p => exact absurd rfl (hsp p)
+  | _ => exact ⟨rfl, rfl⟩
+
+/-- **what the containment test computes** for a polygon-like receiver and a non-point argument: no proper
+    edge crossing, the argument surrounds none of the receiver's holes, and its first vertex is contained -/
+theorem contains_iff_spec {s t : Shape} {vt : Pt} (hpl : s.isPolygonLike = true)
+    (ht : t.firstVertex = .ok vt) (htp : ∀ p, t ≠ .point p) :
+    containsShape s t = .ok true ↔
+      ¬ anyCross s.flatEdges t.flatEdges ∧
+      ¬ (t.isPolygonLike = true ∧ ∃ h ∈ s.holes, ∃ v, h.head? = some v ∧ t.containsCoord v = true) ∧
+      s.containsCoord vt = true := by
+  have e1 : containsShape s t =
+      if doEdgesIntersect s.flatEdges t.flatEdges then .ok false
+      else if t.isPolygonLike && s.holes.any (fun h => match h.head? with
+          | some v => t.containsCoord v | none => false) then .ok false
+      else (do let vt ← t.firstVertex; return s.containsCoord vt) := by
+    cases s with
+    | point p => simp [Shape.isPolygonLike] at hpl
+    | line vs => simp [Shape.isPolygonLike] at hpl
+    | poly o hh => cases t with
+      | point q => exact absurd rfl (htp q)
+      | _ => rfl
+    | box a b hh => cases t with
+      | point q => exact absurd rfl (htp q)
+      | _ => rfl
+  rw [e1, ← sweep_eq_anyCross, ht]
+  have hany : (s.holes.any (fun h => match h.head? with
+      | some v => t.containsCoord v | none => false)) = true ↔
+      ∃ h ∈ s.holes, ∃ v, h.head? = some v ∧ t.containsCoord v = true := by
+    rw [List.any_eq_true]
+    constructor
+    · rintro ⟨h, hm, hv⟩
+      cases hh : h.head? with
+      | none => simp [hh] at hv
+      | some v => exact ⟨h, hm, v, hh, by simpa [hh] using hv⟩
+    · rintro ⟨h, hm, v, hv, hc⟩
+      exact ⟨h, hm, by simp [hv, hc]⟩
+  by_cases h1 : doEdgesIntersect s.flatEdges t.flatEdges = true
+  · simp [h1]
+  · by_cases h2 : (t.isPolygonLike && s.holes.any (fun h => match h.head? with
+        | some v => t.containsCoord v | none => false)) = true
+    · have h2' := h2
+      rw [Bool.and_eq_true, hany] at h2'
+      simp only [h1, h2, if_true, Bool.false_eq_true, if_false]
+      constructor
+      · intro h; cases h
+      · rintro ⟨_, hn, _⟩; exact absurd h2' hn
+    · have h2' := h2
+      rw [Bool.and_eq_true, hany] at h2'
+      simp only [h1, h2, Bool.false_eq_true, if_false, bind, Except.bind, pure, Except.pure,
+        Except.ok.injEq, not_false_eq_true, true_and]
+      exact ⟨fun h => ⟨h2', h⟩, fun h => h.2⟩
+
 /-! ### independence from time bounds
 
 The implementation's `intersects_shape` / `contains_shape` receive shapes that carry time bounds; the
